@@ -51,6 +51,49 @@ def conforms(name, sem, run):
     return None
 
 
+def corpus_stream(ck, q):
+    """the same conformance monitor over the upstream corpus: every run() call the upstream tests make,
+    harvested (not executed) by harness/corpus_plugin.py and replayed here."""
+    import shutil
+    import tempfile
+    import corpus
+    out = tempfile.mkdtemp(prefix='verif_corpus_')
+    try:
+        n, tail = corpus.harvest(out, ['ReferenceManual', 'Additional'] if q else None)
+        recs = corpus.load(out)
+        ck.rng.shuffle(recs)
+        if q:
+            recs = recs[:150]
+        jobs = []
+        for r in recs:
+            jobs.append((r, {'semantic': True}))
+            jobs.append((r, {'rop': False}))
+        outs = corpus.run_calls(jobs)
+        hist = {}
+        for k, r in enumerate(recs):
+            sem, run = outs[2 * k], outs[2 * k + 1]
+            kind = run[0] if run[0] != 'ok' else ('ok' if sem[0] == 'ok' else 'ok-but-semantic-' + sem[0])
+            hist[kind] = hist.get(kind, 0) + 1
+            if run[0] != 'ok' or sem[0] != 'ok':
+                ck.count(None, nontrivial=False)
+                continue
+            nontrivial = any((x[0] == 'ds' and x[2]) for x in run[1].values())
+            ck.count(('corpus', r['id']), nontrivial=nontrivial)
+            for name in run[1]:
+                if name not in sem[1]:
+                    continue
+                why = conforms(name, sem[1][name], run[1][name])
+                if why:
+                    ck.violation('corpus:nonconforming-result:%s:%s' % (why.split(' ')[0].rstrip(':'), r['test'].split('::')[0].split('/')[-2] if '/' in r['test'] else '?'),
+                                 {'corpus_call': r, 'result': name, 'why': why},
+                                 'corpus script %s: result %s does not conform: %s' % (str(r.get('script'))[:120], name, why))
+                    break
+        ck.note('corpus_calls_harvested', n)
+        ck.note('corpus_outcomes', hist)
+    finally:
+        shutil.rmtree(out, ignore_errors=True)
+
+
 def main(ck):
     pr = ck.proof('C10', extra_modules=('VtlModel.Props.C10Types',))
     q = ck.quick()
@@ -102,6 +145,7 @@ def main(ck):
                               'data': {k2: [[str(x) if x is not None else None for x in r] for r in d['rows']] for k2, d in c['env'].items()}},
                              'result %s of %s does not conform: %s' % (n, c['vtl'][:140], why))
                 break
+    corpus_stream(ck, q)
     ck.note('outcomes', hist)
     ck.cov['rule'] = ('case = (script, data): semantic_analysis() and run(return_only_persistent=False) on the same script; every returned dataset '
                       'checked by the executable `conforms` predicate; non-trivial = some non-empty dataset returned; distinct by (script, data)')
